@@ -3,7 +3,6 @@
 use crate::execution::chunk::DataChunk;
 use crate::execution::operators::OperatorError;
 use crate::execution::pipeline::{ChunkSizeHint, PushOperator, Sink};
-use crate::execution::selection::SelectionVector;
 
 /// Push-based limit operator.
 ///
@@ -56,9 +55,8 @@ impl PushOperator for LimitPushOperator {
             // Need to truncate chunk
             self.passed += remaining;
 
-            // Create selection for first `remaining` rows
-            let selection = SelectionVector::new_all(remaining);
-            let truncated = chunk.filter(&selection);
+            // Keep the first `remaining` selected rows (slice follows a selection vector)
+            let truncated = chunk.slice(0, remaining);
 
             sink.consume(truncated)?;
             Ok(false) // Limit reached
@@ -132,8 +130,7 @@ impl PushOperator for SkipPushOperator {
             self.skipped = self.skip;
 
             let start = remaining_to_skip;
-            let selection = SelectionVector::from_predicate(chunk_len, |i| i >= start);
-            let passed = chunk.filter(&selection);
+            let passed = chunk.slice(start, chunk_len - start);
 
             sink.consume(passed)
         }
@@ -187,8 +184,7 @@ impl PushOperator for SkipLimitPushOperator {
             // Partial skip
             self.skip.skipped = self.skip.skip;
             let start = remaining_to_skip;
-            let selection = SelectionVector::from_predicate(chunk_len, |i| i >= start);
-            let passed = chunk.filter(&selection);
+            let passed = chunk.slice(start, chunk_len - start);
 
             return self.limit.push(passed, sink);
         }
